@@ -50,6 +50,8 @@ pub struct BodyPlan {
     pub read_mode: ReadMode,
     /// ReadMode::Sizes reads go through Response::text_reader() instead of the response itself
     pub via_text_reader: bool,
+    /// the exchange runs over TLS (https://secure.test, the fixtures' CA added as a root)
+    pub tls: bool,
     pub rereads: usize,
     pub read_timeout_ms: u64,
     pub extra_headers: Vec<(String, Vec<u8>)>,
@@ -188,6 +190,12 @@ pub fn gen_plan(g: &mut G, max_payload: usize) -> BodyPlan {
         }
     }
     let mut via_text_reader = false;
+    let tls = g.chance(1, 8);
+    if tls {
+        // an interrupted system call during the TLS handshake is fatal inside both TLS libraries; no
+        // property speaks about it, so the EINTR fault is kept to plain connections
+        faults.read_eintr.clear();
+    }
     let read_mode = match g.below(8) {
         k if json_payload => {
             if k % 2 == 0 {
@@ -237,6 +245,8 @@ pub fn gen_plan(g: &mut G, max_payload: usize) -> BodyPlan {
         faults,
         read_mode,
         via_text_reader,
+        // one plan in eight runs inside a TLS session (users with their own routes ignore this)
+        tls,
         rereads: g.below(4) as usize,
         read_timeout_ms: 30_000,
         extra_headers: extra,
@@ -279,6 +289,7 @@ pub fn plan_from_payload(g: &mut G, payload: Vec<u8>, mut headers: Vec<(String, 
         faults: ConnFaults { window: 65536, coalesce: g.chance(1, 4), ..Default::default() },
         read_mode: ReadMode::Bytes,
         via_text_reader: false,
+        tls: false,
         rereads: 0,
         read_timeout_ms: 30_000,
         extra_headers: headers,
@@ -424,6 +435,18 @@ impl std::io::Write for Collect<'_> {
     }
 }
 
+pub const TLS_HOST_NAME: &str = "secure.test";
+pub const TLS_HOST_IP: &str = "10.0.0.5";
+
+#[cfg(feature = "native")]
+fn ca_cert() -> native_tls::Certificate {
+    native_tls::Certificate::from_pem(crate::tlspeer::CA_PEM.as_bytes()).expect("CA pem")
+}
+#[cfg(all(feature = "rustls-backend", not(feature = "native")))]
+fn ca_cert() -> rustls::pki_types::CertificateDer<'static> {
+    rustls_pemfile::certs(&mut crate::tlspeer::CA_PEM.as_bytes()).next().unwrap().unwrap()
+}
+
 pub const HOST_IP: &str = "10.0.0.1";
 pub const HOST_NAME: &str = "origin.test";
 
@@ -434,9 +457,12 @@ pub fn caller(plan: &BodyPlan, stop_on_block: bool) -> Observed {
 
 pub fn caller_with(plan: &BodyPlan, stop_on_block: bool, tweak: impl FnOnce(attohttpc::RequestBuilder) -> attohttpc::RequestBuilder) -> Observed {
     let mut o = Observed::default();
-    let url = format!("http://{}/body", if plan.host_is_domain { HOST_NAME } else { HOST_IP });
-    let rb = attohttpc::RequestBuilder::new(attohttpc::Method::from_bytes(plan.method.as_bytes()).unwrap(), &url)
+    let url = if plan.tls { format!("https://{}/body", TLS_HOST_NAME) } else { format!("http://{}/body", if plan.host_is_domain { HOST_NAME } else { HOST_IP }) };
+    let mut rb = attohttpc::RequestBuilder::new(attohttpc::Method::from_bytes(plan.method.as_bytes()).unwrap(), &url)
         .read_timeout(Duration::from_millis(plan.read_timeout_ms));
+    if plan.tls {
+        rb = rb.add_root_certificate(ca_cert()).proxy_settings(attohttpc::ProxySettings::builder().build());
+    }
     let rb = tweak(rb);
     let t_in = attosim::now_ns();
     let resp = rb.send();
@@ -565,6 +591,8 @@ pub struct Ran<T = Observed> {
     pub history: History,
     pub sched_tape: Vec<u64>,
     pub seen: Seen,
+    /// TLS origin only: (delivery time, plaintext bytes) of what the origin sent inside the session
+    pub plain_out: Vec<(u64, usize)>,
 }
 
 /// Build the world for a body plan and run the caller.
@@ -581,6 +609,7 @@ pub fn run_origin<T>(script: &Script, faults: &ConnFaults, ctx: &RunCtx, f: impl
     let seen = Arc::new(Mutex::new(Seen::default()));
     let script = script.clone();
     let faults = faults.clone();
+    let (script2, faults2) = (script.clone(), faults.clone());
     let seen2 = seen.clone();
     sim.add_listener(
         ip,
@@ -593,9 +622,54 @@ pub fn run_origin<T>(script: &Script, faults: &ConnFaults, ctx: &RunCtx, f: impl
             Box::new(p)
         })),
     );
+    // the same origin behind TLS (used by plans with `tls` set)
+    let tls_log = Arc::new(Mutex::new(crate::tlspeer::TlsLog::default()));
+    {
+        let tip: IpAddr = TLS_HOST_IP.parse().unwrap();
+        sim.add_host(TLS_HOST_NAME, vec![tip]);
+        let script = script2.clone();
+        let faults = faults2.clone();
+        let seen3 = seen.clone();
+        let tls_log = tls_log.clone();
+        sim.add_listener(
+            tip,
+            443,
+            ConnectBehaviour::Accept { latency_ns: NS_PER_MS },
+            Some(Box::new(move |info| {
+                let script = script.clone();
+                let mut p = HttpPeer::new(Arc::new(move |_r, _c| script.clone()), seen3.clone());
+                p.faults = Some(faults.clone());
+                Box::new(crate::tlspeer::TlsPeer::new("good", Box::new(p), tls_log.clone(), info.conn))
+            })),
+        );
+    }
     let out = sim.run(f);
     let seen = seen.lock().unwrap().clone();
-    Ran { observed: out.result, history: out.history, sched_tape: out.sched_tape, seen }
+    let plain_out = tls_log.lock().unwrap().sessions.first().map(|s| s.plaintext_out.clone()).unwrap_or_default();
+    Ran { observed: out.result, history: out.history, sched_tape: out.sched_tape, seen, plain_out }
+}
+
+/// the same two helpers over a TLS origin's plaintext log
+pub fn delivery_steps_plain(plain_out: &[(u64, usize)], head_len: usize) -> Vec<(u64, usize)> {
+    let mut total = 0usize;
+    plain_out
+        .iter()
+        .map(|(t, n)| {
+            total += n;
+            (*t, total.saturating_sub(head_len))
+        })
+        .collect()
+}
+
+pub fn head_arrival_plain(plain_out: &[(u64, usize)], head_len: usize) -> Option<u64> {
+    let mut total = 0usize;
+    for (t, n) in plain_out {
+        total += n;
+        if total >= head_len {
+            return Some(*t);
+        }
+    }
+    None
 }
 
 /// cumulative (time, body bytes delivered) steps for connection 0
